@@ -89,7 +89,7 @@ var (
 	r2Devs = []string{"stop", "flip", "scalar", "plusn", "nonce", "wrongkey", "swap", "short", "long", "wrongmid"}
 	r2W    = []int{3, 9, 9, 3, 5, 5, 7, 3, 3, 2}
 	r3Devs = []string{"stop", "false", "mixed", "badkeysym", "badsig", "nonmember", "self", "impersonate", "badconfirm", "forged"}
-	r3W    = []int{3, 11, 6, 6, 6, 4, 3, 3, 7, 16}
+	r3W    = []int{3, 11, 6, 12, 6, 4, 3, 3, 7, 16}
 )
 
 func genC04(rt *rapid.T) c04Case {
@@ -800,6 +800,28 @@ func (w *world) r1InfoOf(id tss.MemberID) *tsstypes.Round1Info {
 	return nil
 }
 
+// forgeComplaintProof builds a complaint proof for an arbitrary claimed key-sym the way tss.SignComplaint builds it for
+// the real one: nonce k, A1 = kG, A2 = k*PubJ, c = H(A1, A2, PubI, PubJ, claimed), z = k + c*privI.
+func forgeComplaintProof(pubI, pubJ tss.Point, privI tss.Scalar, claimed tss.Point, salt ...any) (tss.ComplaintSignature, error) {
+	for ctr := 0; ctr < 8; ctr++ {
+		nonce := tssworld.ScalarFrom(append([]any{"c04-forge-nonce", ctr}, salt...)...)
+		nonceSym, err := tss.ComputeSecretSym(nonce, pubJ)
+		if err != nil {
+			return nil, err
+		}
+		ch, err := tss.HashRound3Complain(nonce.Point(), nonceSym, pubI, pubJ, claimed)
+		if err != nil {
+			continue
+		}
+		sig, err := tss.Sign(privI, ch, nonce, nil)
+		if err != nil {
+			return nil, err
+		}
+		return tss.NewComplaintSignatureFromComponents(sig.R(), nonceSym, sig.S())
+	}
+	return nil, fmt.Errorf("no usable challenge")
+}
+
 // genuineComplaint is tss.SignComplaint with the complainant's real one-time key against respondent r.
 func (w *world) genuineComplaint(m, r *mem) (*tsstypes.Complaint, bool) {
 	ri, rr := w.r1InfoOf(m.id), w.r1InfoOf(r.id)
@@ -924,6 +946,18 @@ func (w *world) buildR3(m *mem, deviate bool) *item {
 				c.KeySym = negPoint(c.KeySym)
 			default:
 				c.KeySym = tssworld.ScalarFrom("c04-fakesym", w.c.Seed, m.idx).Point()
+			}
+			if (v/3)%2 == 1 {
+				// the wrong key-sym with a proof RE-MADE for it: the Schnorr half under the complainant's one-time key is
+				// valid (the challenge covers the claimed key-sym), only the second half of the equality proof
+				// (z*PubJ == A2 + c*keySym) can tell that the key-sym is not the Diffie-Hellman key
+				sig, err := forgeComplaintProof(w.r1InfoOf(m.id).OneTimePubKey, w.r1InfoOf(r.id).OneTimePubKey, m.dkg.OneTimePrivKey, c.KeySym, w.c.Seed, m.idx)
+				if err != nil {
+					w.fail("harness", "forgeComplaintProof: %v", err)
+					return nil
+				}
+				c.Signature = sig
+				w.v.Class("complain-wrong-keysym-with-consistent-proof")
 			}
 			genuine = false
 		case "badsig":
